@@ -35,7 +35,8 @@ def patch_of(d, head=True):
 
 def demo_cmd(meta, include, src, out):
     build = meta.get('demo_build', '')
-    flags = ' '.join(t for t in build.split() if t.startswith('-D') or t.startswith('-std'))
+    import re
+    flags = ' '.join(re.findall(r'(?<!\S)(-D[A-Za-z0-9_]+(?:=\S*)?|-std=[a-z0-9+]+)(?!\S)', build))
     if '-std' not in flags:
         flags += ' -std=c++14'
     return 'g++ %s -I%s %s -o %s' % (flags, include, src, out)
@@ -77,29 +78,33 @@ def verify(d, base=None):
 
 
 def check(d, ids=None):
+    """run checks against a scratch copy of /repo's headers with the seed applied (same mechanism as selftest/run.py), so that
+    /repo itself is never modified while other checks may be running against it"""
     d = os.path.abspath(d)
     meta = json.load(open(os.path.join(d, 'meta.json')))
     ids = ids or [meta['property']]
-    rc, out = sh('git -C %s status --porcelain --untracked-files=no' % REPO)
-    if out.strip():
-        print('refusing: /repo has uncommitted changes')
-        return None
-    rc, out = sh('git -C %s apply %s' % (REPO, patch_of(d)))
+    scratch = os.path.join(VERIF, '.build', 'seeded', os.path.basename(d) + '-%d' % os.getpid())
+    shutil.rmtree(scratch, ignore_errors=True)
+    os.makedirs(scratch)
+    for sub in ('include', 'development', 'tools'):
+        shutil.copytree(os.path.join(REPO, sub), os.path.join(scratch, sub))
+    rc, out = sh('patch -p1 -s -d %s < %s' % (scratch, patch_of(d)))
     if rc:
+        shutil.rmtree(scratch, ignore_errors=True)
         print('patch does not apply to /repo HEAD: ' + out[-300:])
         return None
     ev_dir = os.path.join(VERIF, 'evidence')
-    backup = os.path.join(VERIF, '.build', 'evidence-backup-seeded')
+    backup = os.path.join(VERIF, '.build', 'evidence-backup-seeded-%d' % os.getpid())
     shutil.rmtree(backup, ignore_errors=True)
     shutil.copytree(ev_dir, backup)
     results = {}
     try:
         for pid in ids:
-            rc, out = sh('%s/check %s' % (VERIF, pid), cwd=VERIF)
+            rc, out = sh('FFSM2_REPO=%s %s/check %s --repo %s' % (scratch, VERIF, pid, scratch), cwd=VERIF)
             viol = [l.strip() for l in out.splitlines() if l.strip().startswith('violated')]
             results[pid] = (rc, viol[:6], out.strip().splitlines()[-1][:200] if out.strip() else '')
     finally:
-        sh('git -C %s checkout -- .' % REPO)
+        shutil.rmtree(scratch, ignore_errors=True)
         shutil.rmtree(ev_dir, ignore_errors=True)
         shutil.copytree(backup, ev_dir)
         shutil.rmtree(backup, ignore_errors=True)
